@@ -6,7 +6,7 @@ Export schema as SDL.
 import itertools
 from typing import Any, Sequence, Union
 
-from .._string_utils import wrapped_lines
+from .._string_utils import parse_block_string, wrapped_lines
 from .._utils import flatten
 from ..lang import print_ast
 from ..schema import (
@@ -185,6 +185,20 @@ class ASTSchemaPrinter:
                 )
                 + "\n"
                 + indent
+            )
+
+        if lines == definition.description.split("\n") and (
+            parse_block_string(body.replace('\\"""', '"""'))
+            != definition.description
+            or any(c < " " and c not in "\t\n" for c in definition.description)
+        ):
+            # Read back as a block string this would not be the description
+            # (blank only, leading / trailing line break, carriage return,
+            # control character ...): print a quoted string instead.
+            return "%s%s%s\n" % (
+                "\n" if indent and not first_in_block else "",
+                indent,
+                print_ast(ast_node_from_value(definition.description, String)),
             )
 
         return '%s%s"""%s"""\n' % (
